@@ -71,3 +71,57 @@ func init() {
 		Assumptions: []string{"go/ssa faithful; z3 sound"},
 	})
 }
+
+func init() {
+	reg(&propCfg{
+		ID:      "C02",
+		Pkgs:    []string{"tax"},
+		Lenient: []string{"tax", "num", "cal", "currency", "cbc"},
+		Stages: []stage{
+			{Name: "L0", Harness: `^H_C05_L0_`},
+			{Name: "summary", Harness: `^H_C02_`, Subst: numSummaries, Needs: []string{"L0"}},
+		},
+		Functions: []string{"tax.(*TotalCalculator).Calculate", "prepareLines", "removeIncludedTaxes", "calculateBaseRateTotals", "mapTaxLines", "tax.(*Total).rateTotalFor", "tax.(*Total).Calculate",
+			"calculateFinalSum", "calculateBaseCategoryTotal", "tax.(*Total).round", "tax.(*Total).Category", "tax.(*RateTotal).matches", "matchRoundingPrecision", "newCategoryTotal", "newRateTotal", "tax.Set.Get",
+			"tax.Extensions.Equals/Contains", "tax.(*Combo).calculate/calculateForRegime/prepareRate", "num.Percentage.Of", "num.Amount.Remove/Add/Subtract/RescaleUp/MatchPrecision"},
+		Stubs: []string{"num.Amount.Rescale/Multiply/Divide: proven integer summaries (C05 layer 0 re-run first)", "currency.Get, tax.RegimeDefFor: native registry import (real ES tables)"},
+		Bounds: map[string][]string{
+			"quick":    {"2 taxable lines; per line one combo in category A (percent present or exempt, optional surcharge, extension none/v1/v2, country ''/XX; percent and surcharge VALUES symbolic) and optionally one in category B; totals symbolic |v| <= 2^36 with currency or currency+2 decimals; EUR; both rounding rules; with and without tax-included category A", "regime ES: 2 lines, VAT key from {standard, reduced, standard+eqs, exempt, zero} and optional retained IRPF"},
+			"thorough": {"2..3 lines; currencies EUR, JPY, BHD; otherwise as quick"},
+		},
+		Outside:     []string{"more than 3 lines / 2 combos per line", "document discounts and charges as taxable rows (same interface, covered through C01 skeletons)"},
+		Assumptions: []string{"amount arithmetic within the C05 domain", "go/ssa faithful; z3 sound"},
+	})
+}
+
+var billFunctions = []string{"bill.calculate", "calculateLines", "calculateLine", "calculateLineDiscounts", "calculateLineCharges", "calculateLineItemPrice", "calculateLineSum",
+	"calculateDiscounts", "calculateDiscountSum", "calculateCharges", "calculateChargeSum", "roundLines", "(*Line).round", "(*LineDiscount).round", "(*LineCharge).round", "roundDiscounts", "roundCharges",
+	"(*Totals).reset", "(*Totals).round", "(*PaymentDetails).calculateAdvances", "(*PaymentDetails).totalAdvance", "pay.(*Terms).CalculateDues", "pay.(*Advance).CalculateFrom",
+	"tax.ApplyRoundingRule", "tax.(*TotalCalculator).Calculate and callees (see C02)", "num.Amount.* / num.Percentage.* (composites executed, Rescale/Multiply/Divide by summaries)"}
+
+var billStubs = []string{"num.Amount.Rescale/Multiply/Divide: proven integer summaries (C05 layer 0 re-run first)", "currency.Get / tax.Regimes().For: native registry import", "cal.TodayIn not reached (issue date set)"}
+
+func billCfg(id string, harness string, bq, bt []string, outside []string) *propCfg {
+	return &propCfg{
+		ID:      id,
+		Pkgs:    []string{"bill"},
+		Lenient: []string{"bill", "tax", "num", "cal", "currency", "cbc", "org", "pay"},
+		Stages: []stage{
+			{Name: "L0", Harness: `^H_C05_L0_`},
+			{Name: "documents", Harness: harness, Subst: numSummaries, Needs: []string{"L0"}},
+		},
+		Functions:   billFunctions,
+		Stubs:       billStubs,
+		Bounds:      map[string][]string{"quick": bq, "thorough": bt},
+		Outside:     outside,
+		Assumptions: []string{"amount arithmetic within the C05 domain (|values| <= 2^32 on inputs)", "go/ssa faithful; z3 sound"},
+	}
+}
+
+func init() {
+	shape := "invoice skeletons: 1..2 lines (price with currency or currency+2 decimals, quantity with 0 or 2 decimals, VAT 21% or 10%, optional line discount percent/fixed, optional line charge percent/fixed/rate), optional document discount and charge (percent/fixed), optional advance (percent/fixed) and percentage due date, optional tax-included prices; ALL prices, quantities and fixed amounts symbolic of either sign (|v| <= 2^32); EUR"
+	reg(billCfg("C03", `^H_C03_`, []string{shape, "currency rounding rule; fixed amounts at currency precision"}, []string{shape + "; also JPY and BHD"},
+		[]string{"more than 2 lines; sub-line breakdowns; foreign-currency items; regime-default rule selection (the rule is passed explicitly)"}))
+	reg(billCfg("C04", `^H_C04_`, []string{shape, "both rounding rules; fixed amounts with currency or currency+2 decimals; second calculation from the first one's heap with the tax summary kept or dropped"}, []string{shape + "; also JPY and BHD"},
+		[]string{"byte identity of encoding/json output, struct-tag driven (un)marshalling, schema.Object insertion, string normalisers and scenario notes (reflection / regexp over unbounded strings)", "amount codec losslessness is C06"}))
+}
